@@ -25,6 +25,10 @@ def dump(scfg, ordered=True, depth=0):
         d = [k, b.name, type(b).__name__, list(b._jump_targets), list(b.backedges)]
         if isinstance(b, (PythonBytecodeBlock, PythonASTBlock)):
             d.append(("range", b.begin, b.end))
+        if isinstance(b, PythonASTBlock):
+            import ast
+
+            d.append(("ast", [ast.unparse(n) for n in b.tree]))
         if isinstance(b, SyntheticBranch):
             tbl = list(b.branch_value_table.items())
             d.append(("branch", b.variable, tbl if ordered else sorted(tbl)))
